@@ -268,10 +268,19 @@ def kani_leaves():
 
 # ---------------------------------------------------------------------------------------------------------------
 def run(G, pid=None):
-    """called by checks.run_all for the thorough tier; pid None = everything"""
+    """called once per thorough run: conformance build + Kani leaves"""
     extra = {'coverage': {}, 'assumptions': [], 'tool': []}
     c = conformance()
     extra['coverage']['conformance_build'] = c
     if not c['ok']:
         extra['tool'].append('conformance build failed (prelude drifted from the real APIs?): %s' % c['output'][-400:])
+    try:
+        k = kani_leaves()
+    except Exception as e:  # timeouts etc.
+        k = {'harnesses': {}, 'error': str(e)[:300]}
+    extra['coverage']['kani_leaves'] = k
+    extra['kani_failed'] = [h for h, v in k.get('harnesses', {}).items() if v['status'] == 'failed']
+    bad = [h for h, v in k.get('harnesses', {}).items() if v['status'] == 'tool-error']
+    if bad or k.get('error'):
+        extra['tool'].append('kani leaf harness did not run: %s %s' % (bad, k.get('error', '')))
     return extra
